@@ -104,6 +104,11 @@ class PathEvents:
                             self.truth[tok] = a[3]
                     elif a[0] == "eq" and a[2] == "nullptr" and isinstance(a[1], str):
                         tok = self.tf.get(a[1])
+                        # the value of an ATOMIC read belongs to that read: a second load of the same location is another
+                        # value (a reader may have left in between), it must not be identified with the first one
+                        for d_ in (f.descendants(a[4]) if len(a) > 4 and a[4] is not None else []):
+                            if d_["id"] in aops and aops[d_["id"]]["op"] == "load" and "call:" + d_["id"] in self.tf.val:
+                                tok = self.tf.val["call:" + d_["id"]]
                         if tok is not None and tok not in ("true", "false"):
                             old = self.truth.get(tok)
                             want = not a[3]
